@@ -1,6 +1,7 @@
 package main
 
 import (
+	"github.com/meshplus/bitxhub-kit/types"
 	"fmt"
 	"io/ioutil"
 	"math/big"
@@ -104,6 +105,19 @@ func realise(rng *rand.Rand, ws []wsEntry, base map[string]string, style string)
 				ops = append(ops, kvOp{Op: "add", A: e.A, K: k, V: orig})
 			}
 		}
+		if style == "balance-by-delta" && e.Field == "bal" {
+			// the same final balance, reached by credits / debits (as transfers, fees and the EVM do) instead of a set
+			var want, have int64
+			fmt.Sscan(e.V, &want)
+			fmt.Sscan(base[fmt.Sprintf("%d|bal", e.A)], &have)
+			d := want - have
+			if d != 0 && rng.Intn(2) == 0 {
+				ops = append(ops, kvOp{Op: "addbal", A: e.A, N: d - 3}, kvOp{Op: "addbal", A: e.A, N: 3})
+			} else {
+				ops = append(ops, kvOp{Op: "addbal", A: e.A, N: d})
+			}
+			continue
+		}
 		ops = append(ops, final(e))
 		if style == "txs" && rng.Intn(2) == 0 {
 			ops = append(ops, kvOp{Op: "endtx"})
@@ -145,6 +159,16 @@ func r10Fork(work string, v r10Variant, baseBlocks [][]kvOp, ops []kvOp) (root s
 				kr.sl.SetBalance(addr, big.NewInt(op.N))
 			case "nonce":
 				kr.sl.SetNonce(addr, uint64(op.N))
+			case "addbal":
+				bl := kr.sl.(interface {
+					AddBalance(*types.Address, *big.Int)
+					SubBalance(*types.Address, *big.Int)
+				})
+				if op.N >= 0 {
+					bl.AddBalance(addr, big.NewInt(op.N))
+				} else {
+					bl.SubBalance(addr, big.NewInt(-op.N))
+				}
 			case "code":
 				kr.sl.SetCode(addr, []byte(op.V))
 			case "get":
@@ -188,7 +212,7 @@ func r10Fork(work string, v r10Variant, baseBlocks [][]kvOp, ops []kvOp) (root s
 func root10Workload(args []string) int {
 	a := parseArgs("root10", args, nil)
 	w := vlog.Open(a.Out)
-	styles := []string{"perm", "txs", "redundant", "reads", "revert-storage", "restore-storage", "revert-acct-field", "restore-acct-field", "add-same-value"}
+	styles := []string{"perm", "txs", "redundant", "reads", "revert-storage", "restore-storage", "revert-acct-field", "restore-acct-field", "add-same-value", "balance-by-delta"}
 	for id := a.From; id < a.To; id++ {
 		rng := vlog.CaseRand(a.Seed, "root10", id)
 		w.CaseStart(id, nil)
